@@ -308,3 +308,74 @@ def rf94(run):
                           'MIR_new_insn_arr does not fire for it: an instruction with the wrong number of operands is created instead of '
                           'raising MIR_ops_num_error' % (nm, fixed[nm]), line=guard['l'])
     return n
+
+
+# ---------------------------------------------------------------------------------------------
+# RF134: operands that MIR_finish_func does not look at
+# ---------------------------------------------------------------------------------------------
+
+def rf134(run):
+    from lib import printexec as PE
+    rule = 'RF134'
+    run.rule(rule, 'MIR_finish_func, loop over the operands: the `continue` statements in front of the mode check exempt an operand from '
+                   'validation.  Their conditions, evaluated for every opcode and operand position 0…4 (operand mode REF where a condition '
+                   'asks for it), exempt exactly: operand 0 of UNSPEC, the prototype and a *reference* callee of the call family, and the '
+                   'memory operand of VA_ARG — the operands that MIR_new_insn_arr validates when the instruction is created (frozen table). '
+                   'Any other exemption lets an operand of a wrong kind, or an undeclared register, into a finished function')
+    tu = run.tu('mir')
+    f = tu.func('MIR_finish_func')
+    run.functions_analysed.add(('mir', f.name))
+    loops = [l for l in f.walk() if l['k'] == 'ForStmt' and l['c'][1] is not None and 'actual_nops' in F.src(l['c'][1])]
+    if not loops:
+        raise F.AnalysisBroken('MIR_finish_func: the loop over the operands was not found')
+    body = loops[0]['c'][3]
+    stmts = F.kids(body) if body['k'] == 'CompoundStmt' else [body]
+    # the statements in front of the first assignment of expected_mode
+    head = []
+    for s_ in stmts:
+        if any(y['k'] == 'BinaryOperator' and y['op'] == '=' and F.src(F.strip(y['c'][0])) == 'expected_mode' for y in F.walk(s_)):
+            break
+        head.append(s_)
+    if not head or not any(y['k'] == 'ContinueStmt' for s_ in head for y in F.walk(s_)):
+        raise F.AnalysisBroken('MIR_finish_func: the exemptions in front of the mode check were not found')
+    codes = [(n_, v) for n_, v in tu.enum('MIR_insn_code_t')]
+    bound = dict(codes)['MIR_INSN_BOUND']
+    modes = dict(tu.enum('MIR_op_mode_t'))
+    calls = {'MIR_CALL', 'MIR_INLINE', 'MIR_JCALL'}
+    n = 0
+    first = None
+    for nm, v in codes:
+        if v >= bound:
+            continue
+        for i in range(5):
+            ex = PE.PrintExec(tu, {}, {}, {})
+            env = {'code': v, 'i': i, 'insn->code': v, 'insn->ops[%d].mode' % i: modes['MIR_OP_REF'], 'insn->ops[i].mode': modes['MIR_OP_REF']}
+            skipped = False
+            try:
+                for s_ in head:
+                    r = ex.run(s_, env)
+                    if r == 'continue':
+                        skipped = True
+                        break
+                    if r in ('break', 'return'):
+                        break
+            except F.AnalysisBroken as e_:
+                raise F.AnalysisBroken('MIR_finish_func: exemptions not evaluable for %s operand %d: %s' % (nm, i, e_))
+            want = (nm == 'MIR_UNSPEC' and i == 0) or (nm in calls and i in (0, 1)) or (nm == 'MIR_VA_ARG' and i == 2)
+            ok = skipped == want
+            n += 1
+            if not ok or skipped:
+                run.ob(rule, (nm, i), ok, {'opcode': nm, 'operand': i, 'exempt': skipped, 'validated at creation': want})
+            else:
+                run.ob(rule, (nm, i), ok)
+            if not ok and first is None:
+                first = (nm, i, skipped)
+    if first:
+        nm, i, skipped = first
+        run.violation(rule, f, 'operand %d of %s' % (i, nm), 'MIR_finish_func %s operand %d of %s: %s' %
+                      ('does not validate' if skipped else 'validates', i, nm,
+                       'nothing checks it when the instruction is created either, so a float immediate, a label or an undeclared register is '
+                       'accepted there (the generator later hangs or passes garbage)' if skipped else
+                       'the operand was exempt on the reference tree (validated at creation); validating it here rejects well-formed code'),
+                      line=loops[0]['l'])
+    return n
